@@ -23,6 +23,8 @@ extern "C" void vp_c18_limit(bool ok);   // c18_env.c: ASSERT(ok, "..."), ASSUME
 extern "C" unsigned vp_c18_jid_code(const QString *s);      // unit of a 1-unit model string; 0 for a model string of another length; C18_UNKNOWN otherwise
 extern "C" unsigned vp_c18_key_code(const QByteArray *s);   // same for byte arrays
 #define C18_UNKNOWN 0xFFFFFFFFu
+extern "C" void vp_c18_empty_str(QString *out);
+extern "C" void vp_c18_empty_bytes(QByteArray *out);
 // equality of keys / values: strings built by the string model are compared through their codes (two 1-unit strings are equal iff
 // their units are equal; a 1-unit string never equals a string of another length); anything else - and two strings that are both
 // not 1 unit long - goes through the real operator==
@@ -45,7 +47,7 @@ struct VpMHBlk {
     bool used[MH_CAP];
     QString k[MH_CAP];
     QByteArray v[MH_CAP];
-    VpMHBlk() { for (int i = 0; i < MH_CAP; i++) used[i] = false; }
+    VpMHBlk() { for (int i = 0; i < MH_CAP; i++) { used[i] = false; vp_c18_empty_str(&k[i]); vp_c18_empty_bytes(&v[i]); } }   // unused slots: empty MODEL strings
     VpMHBlk(const VpMHBlk &o) { for (int i = 0; i < MH_CAP; i++) { used[i] = o.used[i]; k[i] = o.k[i]; v[i] = o.v[i]; } }
 };
 extern VpMHBlk *vp_c18_mh_empty;   // shared empty block (created by c18Init())
